@@ -26,17 +26,23 @@ pub struct FnSpec {
     pub at: Vec<(String, String)>,
     pub lettype: BTreeMap<String, String>,
     pub whilelet: BTreeSet<usize>,
+    pub foriter: BTreeSet<usize>,
+    pub forloop: BTreeSet<usize>,
     pub may_panic: BTreeSet<usize>,
     pub letsplit: Vec<String>,
+    pub letsplit_named: Vec<(String, String)>, // (`METHOD#k`, NAME)
+    pub bindspine: Vec<String>,
     pub refop: Vec<String>,
-    pub chainbind: Vec<(String, bool, String)>, // (method#k, mut, name)
+    pub bindarg: Vec<(String, usize, usize, String)>, // (callee, K-th statement-level call, arg index, name)
     pub props: Vec<String>,
     pub no_canary: BTreeSet<String>,
     pub argtype: BTreeMap<String, String>,
     pub rettype: Option<String>,
     pub generics: Option<String>,
     pub no_iter: bool,
+    pub method_map: Vec<(String, String)>, // per-function R-MAP renames (`@fn-method-map a => b`)
     pub opts: BTreeSet<String>,
+    pub subst: Vec<(String, String)>, // @lift only: free place expression of the enclosing fn => parameter of the lifted fn
     pub line: usize,
 }
 
@@ -59,6 +65,16 @@ pub struct LiftSpec {
     pub f: FnSpec,
 }
 
+/// `@derive <file> <Name>..` (R-MACRO-EXPAND): type definition + the derive macro's real `impl ContentHash` output
+#[derive(Default, Debug, Clone)]
+pub struct DeriveSpec {
+    pub file: String,
+    pub names: Vec<String>,
+    pub extra: String,   // hand-written spec fns / lemma for the impl block (single name only); empty = generated from the type definition
+    pub tattrs: String,  // attributes for the type item
+    pub f: FnSpec,       // sub-directives of the generated `hash` fn
+}
+
 #[derive(Debug, Clone)]
 pub enum Item {
     Raw(String),
@@ -66,8 +82,10 @@ pub enum Item {
     Fn(FnSpec),
     Impl { file: String, head: String, hdr: Option<String>, fns: Vec<FnSpec>, extra: String },
     Lift(LiftSpec),
-    Const { file: String, name: String },
-    Derive { file: String, names: Vec<String> },
+    Const { file: String, name: String, ensures: String, props: Vec<String>, line: usize },
+    /// `@callorder file Type::fn as name(calleeA, calleeB)`: positions of calls in the fn body as spec fns + a proof fn with @ensures
+    CallOrder { file: String, path: String, name: String, callees: Vec<String>, f: FnSpec },
+    Derive(DeriveSpec),
 }
 
 #[derive(Default, Debug)]
@@ -80,7 +98,10 @@ pub struct Unit {
     pub type_map: Vec<(String, String)>,
     pub path_map: Vec<(String, String)>,
     pub uses: Vec<String>,
+    pub features: Vec<String>,
     pub method_map: Vec<(String, String)>,
+    pub iter_fns: Vec<String>,
+    pub strlit: Option<String>, // R-STR: string literals in expression position become `<strlit>("lit")`
     pub items: Vec<Item>,
     pub trusted_allow: Vec<String>,
     pub assumptions: Vec<String>,
@@ -165,9 +186,9 @@ pub fn preprocess(text: &str, dir: &std::path::Path, depth: usize) -> Result<Str
                 match is_directive(l) {
                     Some(("unit", _)) | Some(("serves", _)) => continue,
                     Some(("prelude", a)) => { flush(&mut buf, &mut pending_fn, &mut out); out.push_str(&format!("@prelude {}\n", a)); }
-                    Some((d, _)) if matches!(d, "fn" | "lift" | "raw" | "spec" | "type" | "impl" | "endimpl" | "const" | "derive" | "use" | "enum-eq" | "path-map" | "type-map" | "method-map" | "assume" | "not-under-contract" | "stub-eq" | "trusted-allow") => {
+                    Some((d, _)) if matches!(d, "fn" | "lift" | "callorder" | "raw" | "spec" | "type" | "impl" | "endimpl" | "const" | "derive" | "use" | "feature" | "enum-eq" | "path-map" | "type-map" | "method-map" | "iter-fn" | "assume" | "not-under-contract" | "stub-eq" | "trusted-allow" | "strlit") => {
                         flush(&mut buf, &mut pending_fn, &mut out);
-                        pending_fn = matches!(d, "fn" | "lift");
+                        pending_fn = matches!(d, "fn" | "lift" | "callorder");
                         buf.push(l.to_string());
                     }
                     _ => buf.push(l.to_string()),
@@ -196,30 +217,49 @@ pub fn parse(text: &str) -> Result<Unit, String> {
             return Err(format!("spec line {}: text before first directive", ln + 1));
         }
     }
-    enum Ctx { None, Fn, Type, Lift }
+    enum Ctx { None, Fn, Type, Lift, Const }
     let mut ctx = Ctx::None;
     let mut in_impl = false;
+    let mut in_derive = false;
     fn cur_fn(unit: &mut Unit, in_impl: bool) -> Option<&mut FnSpec> {
         match unit.items.last_mut()? {
             Item::Fn(f) => Some(f),
             Item::Impl { fns, .. } if in_impl => fns.last_mut(),
             Item::Lift(l) => Some(&mut l.f),
+            Item::CallOrder { f, .. } => Some(f),
+            Item::Derive(d) => Some(&mut d.f),
             _ => None,
         }
     }
     for (d, a, body, ln) in dirs {
         let full = if a.is_empty() { body.clone() } else { format!("{}\n{}", a, body) };
         let full_trim = full.trim().to_string();
+        if matches!(d.as_str(), "raw" | "spec" | "type" | "const" | "derive" | "impl" | "endimpl" | "lift" | "endderive") { in_derive = false; }
+        if d == "fn" && in_derive && a.trim() == "hash" { ctx = Ctx::Fn; continue; }
+        if d == "fn" { in_derive = false; }
+        if in_derive && !matches!(ctx, Ctx::Fn) {
+            if let Some(Item::Derive(dv)) = unit.items.last_mut() {
+                match d.as_str() {
+                    "extra" => { dv.extra.push_str(&body); continue; }
+                    "attrs" => { dv.tattrs = full_trim; continue; }
+                    _ => {}
+                }
+            }
+        }
         match d.as_str() {
+            "endderive" => { ctx = Ctx::None; }
             "unit" => unit.name = a,
             "serves" => unit.serves = a.split_whitespace().map(String::from).collect(),
             "prelude" => { for p in a.split_whitespace() { if !unit.prelude.iter().any(|x| x == p) { unit.prelude.push(p.to_string()); } } }
             "enum-eq" => unit.enum_eq.extend(full_trim.split_whitespace().map(String::from)),
+            "iter-fn" => unit.iter_fns.extend(full_trim.split_whitespace().map(String::from)),
             "stub-eq" => unit.stub_eq.extend(full_trim.split_whitespace().map(String::from)),
             "type-map" => {
                 // `From => To`
                 for l in full.lines() { if let Some((x, y)) = l.split_once("=>") { unit.type_map.push((x.trim().replace(' ', ""), y.trim().to_string())); } }
             }
+            "strlit" => unit.strlit = Some(full_trim),
+            "feature" => unit.features.extend(full_trim.split_whitespace().map(String::from)),
             "use" => unit.uses.push(format!("use {};", full_trim.trim_end_matches(';'))),
             "path-map" => {
                 for l in full.lines() { if let Some((x, y)) = l.split_once("=>") { unit.path_map.push((x.trim().to_string(), y.trim().to_string())); } }
@@ -243,14 +283,17 @@ pub fn parse(text: &str) -> Result<Unit, String> {
                 let mut it = a.split_whitespace();
                 let file = it.next().ok_or(format!("line {ln}: @const file NAME"))?.to_string();
                 let name = it.next().ok_or(format!("line {ln}: @const file NAME"))?.to_string();
-                unit.items.push(Item::Const { file, name });
-                ctx = Ctx::None;
+                unit.items.push(Item::Const { file, name, ensures: String::new(), props: vec![], line: ln });
+                ctx = Ctx::Const;
             }
             "derive" => {
                 let mut it = a.split_whitespace();
                 let file = it.next().ok_or(format!("line {ln}: @derive file Names.."))?.to_string();
-                let names = it.map(String::from).collect();
-                unit.items.push(Item::Derive { file, names });
+                let names: Vec<String> = it.map(|s| s.trim_end_matches(',').to_string()).filter(|s| !s.is_empty()).collect();
+                if names.is_empty() { return Err(format!("line {ln}: @derive file Names..")); }
+                let f = FnSpec { ret_name: "r".into(), line: ln, file: file.clone(), path: "hash".into(), ..Default::default() };
+                unit.items.push(Item::Derive(DeriveSpec { file, names, f, ..Default::default() }));
+                in_derive = true;
                 ctx = Ctx::None;
             }
             "impl" => {
@@ -282,6 +325,16 @@ pub fn parse(text: &str) -> Result<Unit, String> {
                 unit.items.push(Item::Lift(LiftSpec { file: file.to_string(), path: path.trim().to_string(), binder: binder.trim().to_string(), sig: format!("{} {}", sig.trim(), body.trim()), f }));
                 ctx = Ctx::Lift;
             }
+            "callorder" => {
+                // @callorder file Type::fn as name(calleeA, calleeB, ..)
+                let (file, rest) = a.split_once(char::is_whitespace).ok_or(format!("line {ln}: @callorder file path as name(..)"))?;
+                let (path, sig) = rest.trim().split_once(" as ").ok_or(format!("line {ln}: @callorder .. as name(callees)"))?;
+                let callees = paren_arg(sig, sig.split('(').next().unwrap_or("").trim()).ok_or(format!("line {ln}: @callorder .. as name(callees)"))?;
+                let name = sig.split('(').next().unwrap_or("").trim().to_string();
+                let f = FnSpec { ret_name: "r".into(), line: ln, file: file.to_string(), path: path.trim().to_string(), ..Default::default() };
+                unit.items.push(Item::CallOrder { file: file.to_string(), path: path.trim().to_string(), name, callees: split_top(&callees, ','), f });
+                ctx = Ctx::Lift;
+            }
             // ---- sub-directives
             sub => {
                 if let Ctx::Type = ctx {
@@ -295,6 +348,15 @@ pub fn parse(text: &str) -> Result<Unit, String> {
                                 continue;
                             }
                             _ => return Err(format!("line {ln}: unknown type sub-directive @{sub}")),
+                        }
+                    }
+                }
+                if let Ctx::Const = ctx {
+                    if let Some(Item::Const { ensures, props, .. }) = unit.items.last_mut() {
+                        match sub {
+                            "ensures" => { *ensures = full_trim; continue; }
+                            "props" => { *props = a.split_whitespace().map(String::from).collect(); continue; }
+                            _ => return Err(format!("line {ln}: unknown const sub-directive @{sub}")),
                         }
                     }
                 }
@@ -344,17 +406,40 @@ pub fn parse(text: &str) -> Result<Unit, String> {
                         f.argtype.insert(n.to_string(), ty.trim().to_string());
                     }
                     "whilelet" => { for k in a.split_whitespace() { f.whilelet.insert(k.parse().map_err(|_| format!("line {ln}: @whilelet K"))?); } }
+                    "foriter" => { for k in a.split_whitespace() { f.foriter.insert(k.parse().map_err(|_| format!("line {ln}: @foriter K"))?); } }
+                    "forloop" => { for k in a.split_whitespace() { f.forloop.insert(k.parse().map_err(|_| format!("line {ln}: @forloop K"))?); } }
                     "may-panic" => { for k in a.split_whitespace() { f.may_panic.insert(k.parse().map_err(|_| format!("line {ln}: @may-panic K"))?); } }
-                    "letsplit" => f.letsplit.extend(a.split_whitespace().map(String::from)),
+                    "letsplit" => {
+                        // `@letsplit m1 m2` (receiver chains in let initialisers) and/or `@letsplit METHOD#k NAME` (named receiver)
+                        let toks: Vec<&str> = a.split_whitespace().collect();
+                        let mut i = 0;
+                        while i < toks.len() {
+                            if toks[i].contains('#') {
+                                let nm = toks.get(i + 1).ok_or(format!("line {ln}: @letsplit METHOD#k NAME"))?;
+                                f.letsplit_named.push((toks[i].to_string(), nm.to_string()));
+                                i += 2;
+                            } else { f.letsplit.push(toks[i].to_string()); i += 1; }
+                        }
+                    }
+                    "bindspine" => f.bindspine.extend(a.split_whitespace().map(String::from)),
+                    "bindarg" => {
+                        // @bindarg CALLEE#K IDX NAME
+                        let parts: Vec<&str> = a.split_whitespace().collect();
+                        if parts.len() != 3 { return Err(format!("line {ln}: @bindarg CALLEE#K IDX NAME")); }
+                        let (callee, k) = parts[0].split_once('#').unwrap_or((parts[0], "1"));
+                        let k: usize = k.parse().map_err(|_| format!("line {ln}: @bindarg CALLEE#K"))?;
+                        let idx: usize = parts[1].parse().map_err(|_| format!("line {ln}: @bindarg IDX"))?;
+                        f.bindarg.push((callee.to_string(), k, idx, parts[2].to_string()));
+                    }
                     "refop" => f.refop.extend(a.split_whitespace().map(String::from)),
-                    "chainbind" => {
-                        // @chainbind METHOD[#k] [mut] NAME
-                        let w: Vec<&str> = a.split_whitespace().collect();
-                        let (m, is_mut, name) = match w.as_slice() { [m, "mut", n] => (*m, true, *n), [m, n] => (*m, false, *n), _ => return Err(format!("line {ln}: @chainbind METHOD[#k] [mut] NAME")) };
-                        let m = if m.contains('#') { m.to_string() } else { format!("{}#1", m) };
-                        f.chainbind.push((m, is_mut, name.to_string()));
+                    "fn-method-map" => {
+                        for l in full.lines() { if let Some((x, y)) = l.split_once("=>") { f.method_map.push((x.trim().to_string(), y.trim().to_string())); } }
                     }
                     "no-canary" => f.no_canary.extend(a.split_whitespace().map(String::from)),
+                    "subst" => {
+                        let (x, y) = a.split_once("=>").ok_or(format!("line {ln}: @subst PLACE => EXPR"))?;
+                        f.subst.push((x.trim().to_string(), y.trim().to_string()));
+                    }
                     _ => return Err(format!("line {ln}: unknown directive @{sub}")),
                 }
             }
